@@ -62,6 +62,7 @@ func C15(p *load.Prog, r *oblig.Run) {
 	runE1(p, r, "R15", entries, linTolerated(p), 40)
 
 	c15Errors(p, r)
+	c15Work(p, r)
 	c15NilResults(p, r)
 	// R15.r recursion guard
 	r.Rule("R15.r", "evaluation of a variable is cut off by a depth test on engine state before it recurses into the variable's statement", 1)
